@@ -1,10 +1,12 @@
 """C19  Loading a recorded case restores the recorded state.
 
-Domain : the recorded runs of C17 (vfw/c17_models.py); recorded cases picked at drawn positions (driver, problem, system, solver
-         cases); a fresh Problem of the same spec, optionally brought to a different state first (other independent values +
+Domain : the recorded runs of C17 (vfw/c17_models.py; models include inputs connected or promoted with src_indices and groups of
+         unconnected inputs promoted to one name whose source is described by set_input_defaults in units of its own); recorded
+         cases picked at drawn positions (driver, problem, system, solver cases); a fresh Problem of the same spec, optionally brought to a different state first (other independent values +
          run_model) and optionally final_setup() before the load, calls load_case(case).
 Oracle : the case itself: for every recorded output get_val(abs) == recorded value (bitwise), for every recorded input
-         get_val(abs_in, from_src=False) == recorded value in the input's units, variables that are neither in the case nor the
+         get_val(abs_in, from_src=False) == recorded value in the input's units (its own entries when it reads its source through
+         src_indices), variables that are neither in the case nor the
          source of a recorded input keep their values; for cases recorded when the whole model had just been solved a following
          run_model() reproduces every recorded output (solver tolerance).
 """
@@ -24,7 +26,8 @@ RULE = ("case = C17 case (model spec x driver x recorder placement/options x run
         "cases (one recorded after a complete solve, one in the middle of a run, one anywhere) + load mode (fresh problem after setup() | after final_setup() | after final_setup, other independent values and "
         "run_model). Every picked case is loaded into its own new Problem. Non-trivial = the loaded case holds an input connected "
         "with a unit conversion or a variable of the coupled pair, and the target problem was perturbed or the case is not the last "
-        "one. Distinct = distinct canonical JSON.")
+        "one; also when the loaded case holds an input with src_indices or an _auto_ivc output feeding inputs declared in other units / "
+        "through src_indices. Distinct = distinct canonical JSON.")
 ASSUMPTIONS = [
     "get_val(abs_name) is the model-units value of an output, get_val(abs_in, from_src=False) the input's own value (docs)",
     "load_case 'pulls all input and output variables from a case into the model ... the rest of the model variables are left "
@@ -34,7 +37,14 @@ ASSUMPTIONS = [
     "recorded in a consistent state (whole model just solved), with tolerance 1e-9*(1+|v|) (an input inside the coupled pair lags "
     "its source by the solver tolerance)",
     "an input fed by an _auto_ivc output is the same variable as that output for load_case: when a case holds different values for "
-    "the two (recorded between set_val and the next run, or stale in an optimizer run) the input is not compared",
+    "the two (recorded between set_val and the next run, or stale in an optimizer run) the input is not compared; 'the same value' "
+    "means input == source[src_indices] converted from the source's units (set_input_defaults) to the input's units, exactly when no "
+    "conversion is involved, within 1e-12*(1+|v|) otherwise",
+    "an input whose _auto_ivc source carries other units may be restored from its own recorded value or from the recorded source "
+    "(the docs do not say which): it is compared with tolerance 1e-12*(1+|v|) (one unit conversion) instead of bitwise",
+    "set_input_defaults(name, val=, units=) and group.promotes(..., src_indices=) are documented ways to build a model; the docs of "
+    "load_case make no exception for them ('pulls all input and output variables from a case into the model', and the docs' own "
+    "example asserts model._outputs[name] == case value for every recorded output), so the recorded _auto_ivc value must come back too",
     "re-run clause: only cases recorded right after a complete model solve (driver / root-system / problem cases), that contain "
     "every independent variable whose value differs from the fresh default; tolerance 1e-9*(1+|v|) (solver tolerances are 1e-12); "
     "cases of a ScipyOptimizeDriver run are excluded from this clause (relevance pruning leaves irrelevant components stale by design), "
@@ -43,7 +53,10 @@ ASSUMPTIONS = [
 ]
 BOUND = {'quick': '4 units x 110 runs x up to 3 loaded cases', 'thorough': '16 units x 900 runs x 3'}
 MIN_CLASS_FRACTION = {'judged': 0.9, 'kind:driver': 0.08, 'kind:problem': 0.1, 'kind:system': 0.15, 'kind:solver': 0.08, 'mode:perturbed': 0.2,
-                      'mode:setup-only': 0.2, 'rerun-checked': 0.12, 'has-unit-converted-input': 0.2}
+                      'mode:setup-only': 0.2, 'rerun-checked': 0.12, 'has-unit-converted-input': 0.2,
+                      'gen:defaults-units-differ-from-inputs': 0.15, 'gen:src-indices:connect': 0.2, 'gen:src-indices:promoted-auto': 0.1,
+                      'gen:src-indices:promoted-ivc': 0.03, 'loaded:autoivc-output-in-other-units-than-its-inputs': 0.1,
+                      'loaded:autoivc-output-read-through-src-indices': 0.08, 'loaded:input-with-src-indices': 0.25}
 UNIT_TIMEOUT = {'quick': 1500, 'thorough': 4 * 3600}
 FNAME = './c19_cases.sql'
 
@@ -67,6 +80,29 @@ def known_presetup_units(spec, absn, conn):
     names = M.var_names(spec)
     s = conn.get(absn)
     return s is not None and s in names and names[s]['units'] != names[absn]['units']
+
+
+def shared_sources(spec, conn):
+    """_auto_ivc output -> (spec['shared'] entry, [(abs input, input dict)]): inputs promoted to one name whose source is described by
+    set_input_defaults"""
+    out = {}
+    for sh in M.shared_groups(spec):
+        mem = M.shared_members(spec, sh)
+        if mem and conn.get(mem[0][0], '').startswith('_auto_ivc.'):
+            out[conn[mem[0][0]]] = (sh, mem)
+    return out
+
+
+def known_autoivc_units(sh, v):
+    """F-C19-3: the case holds an _auto_ivc output whose units (set_input_defaults) differ from the units declared on input v that
+    it feeds: load_case hands the recorded SOURCE value to set_val(<abs input>), which reads it in the input's units."""
+    return M.ufactor(sh['units'], v['units']) != 1.0
+
+
+def known_autoivc_view(sh, v):
+    """F-C19-4: the case holds an _auto_ivc output that input v reads through src_indices (promotes(..., src_indices=...)):
+    load_case hands the whole recorded SOURCE value to set_val(<abs input>), which expects the input's own (selected) entries."""
+    return M.is_view(v.get('si'), sh['size'])
 
 
 def check(case):
@@ -93,10 +129,16 @@ def _independents(spec, conn):
         for d in spec['ivc']['outs']:
             out.append(('ivc.' + d['n'], 'ivc.' + d['n'], d['size']))
     seen = set()
+    names = M.var_names(spec)
     for i, v in M.all_inputs(spec):
         if conn.get(i, '').startswith('_auto_ivc.') and conn[i] not in seen:
             seen.add(conn[i])
-            out.append((i, conn[i], v['size']))
+            sh = M.shared_of_input(spec, v)
+            if sh is not None:
+                # several inputs promoted to one name: the independent variable is that name (sh['size'] entries in sh['units'])
+                out.append((names[i]['prom'], conn[i], sh['size']))
+            else:
+                out.append((i, conn[i], v['size']))
     return out
 
 
@@ -117,6 +159,9 @@ def _check(case, spec, res, om):
     conn = dict(p.model._conn_global_abs_in2out)
     names = M.var_names(spec)
     res.classes.append('judged')
+    res.classes += M.feature_classes(spec)
+    indict = dict(M.all_inputs(spec))
+    ssrc = shared_sources(spec, conn)
     mode = case['mode']
     indep = _independents(spec, conn)
     defaults = {}
@@ -180,21 +225,35 @@ def _check(case, spec, res, om):
             last_run = [o['op'] for o in spec['ops'][:e['op'] + 1] if o['op'].startswith('run')]
             in_opt = bool(last_run) and last_run[-1] == 'run_driver'
 
+        # recorded _auto_ivc outputs that feed inputs declared in other units (k3) / through src_indices (k4)
+        k3 = {o for o, (sh, mem) in ssrc.items() if o in rec_out and any(known_autoivc_units(sh, v) for _, v in mem)}
+        k4 = {o for o, (sh, mem) in ssrc.items() if o in rec_out and any(known_autoivc_view(sh, v) for _, v in mem)}
+        if k3:
+            res.classes.append('loaded:autoivc-output-in-other-units-than-its-inputs')
+        if k4:
+            res.classes.append('loaded:autoivc-output-read-through-src-indices')
+        if any(indict[a].get('si') for a in rec_in if a in indict):
+            res.classes.append('loaded:input-with-src-indices')
+        nontriv_new = bool(k3 or k4) or any(indict[a].get('si') for a in rec_in if a in indict)
+
         try:
             p2.load_case(c)
         except Exception as ex:
             sig = core.repo_frame_signature(ex, f"load_case:{kind}")
             if sig is None:
                 raise
-            res.fail(sig, f"{e['name']}: {type(ex).__name__}: {ex}")
+            res.fail(('F-C19-4|' if k4 else '') + sig, f"{e['name']}: {type(ex).__name__}: {ex}")
             continue
 
         nontriv = False
+        bad_src = set()
         # ---- recorded outputs
         for a, want in rec_out.items():
             got = np.asarray(p2.get_val(a))
             if got.shape != want.shape or not np.array_equal(got, want):
-                pre = 'F-C19-1|' if known_relative_names(spec, a) else ''
+                pre = 'F-C19-1|' if known_relative_names(spec, a) else 'F-C19-4|' if a in k4 else 'F-C19-3|' if a in k3 else ''
+                if a in ssrc:
+                    bad_src.add(a)
                 res.fail(f"{pre}output-not-restored:{kind}", f"mode {mode}, case {e['name']} ({e['source']}): get_val({a!r}) = {got.tolist()} "
                          f"recorded {want.tolist()} (case.outputs keys {list(c.outputs.keys())[:8]})")
             if a.startswith('cyc.'):
@@ -208,19 +267,45 @@ def _check(case, spec, res, om):
             if not has_vec and not (full and not in_opt):
                 continue
             src = conn.get(a, '')
-            if src.startswith('_auto_ivc.') and src in rec_out and not np.array_equal(np.ravel(rec_out[src]), np.ravel(want)):
-                # the case was recorded in an inconsistent state (set_val / stale irrelevant component): an input and the
-                # auto_ivc output that feeds it are ONE variable for load_case, both recorded values cannot be restored
-                res.classes.append('inconsistent-autoivc-pair')
-                continue
+            f = 1.0
+            if src.startswith('_auto_ivc.') and src in rec_out:
+                # what the recorded source says about this input: its entries src_indices, converted from the source's units
+                # (set_input_defaults) to the input's units
+                sv = np.ravel(rec_out[src])
+                vin = indict[a]
+                if src in ssrc:
+                    f = M.ufactor(ssrc[src][0]['units'], vin['units'])
+                    sv = sv[list(vin['si'])] if vin.get('si') else sv
+                if sv.shape != np.ravel(want).shape:
+                    raise RuntimeError(f"harness: source view of {a} has shape {sv.shape}, recorded input {np.shape(want)}")
+                if f == 1.0:
+                    same = np.array_equal(sv, np.ravel(want))
+                else:
+                    same = bool(np.all(np.abs(sv * f - np.ravel(want)) <= 1e-12 * (1 + np.abs(np.ravel(want)))))
+                if not same:
+                    # the case was recorded in an inconsistent state (set_val / stale irrelevant component): an input and the
+                    # auto_ivc output that feeds it are ONE variable for load_case, both recorded values cannot be restored
+                    res.classes.append('inconsistent-autoivc-pair')
+                    continue
             got = np.asarray(p2.get_val(a, from_src=False))
-            if has_vec:
+            if has_vec and f != 1.0:
+                # the input may be restored from its own recorded value or from the recorded source: one unit conversion apart
+                ok = got.shape == want.shape and bool(np.all(np.abs(got - want) <= 1e-12 * (1 + np.abs(want))))
+            elif has_vec:
                 ok = got.shape == want.shape and np.array_equal(got, want)
             else:
                 # no storage of its own yet: the input shows its source, which the recording solver left within its tolerance
                 ok = got.shape == want.shape and bool(np.all(np.abs(got - want) <= 1e-9 * (1 + np.abs(want))))
             if not ok:
                 pre = 'F-C19-2|' if (not has_vec and conv) else ''
+                if src in k3 or src in k4:
+                    sh = ssrc[src][0]
+                    # after final_setup the input's own storage was overwritten with the raw source value; before, the input
+                    # shows its source, which is wrong when the last member written reads it in other units / other entries
+                    if (has_vec and known_autoivc_view(sh, indict[a])) or (not has_vec and src in bad_src and src in k4):
+                        pre = 'F-C19-4|'
+                    elif (has_vec and known_autoivc_units(sh, indict[a])) or (not has_vec and src in bad_src):
+                        pre = 'F-C19-3|'
                 res.fail(f"{pre}input-not-restored:{kind}", f"mode {mode}, case {e['name']} ({e['source']}): get_val({a!r}, from_src=False) = "
                          f"{got.tolist()} recorded {want.tolist()}")
         # ---- the rest is unchanged
@@ -261,11 +346,11 @@ def _check(case, spec, res, om):
                 for a, want in rec_out.items():
                     got = np.asarray(p2.get_val(a))
                     if got.shape != want.shape or np.any(np.abs(got - want) > 1e-9 * (1 + np.abs(want))):
-                        pre = 'F-C19-1|' if bad_names else ''
+                        pre = 'F-C19-1|' if bad_names else 'F-C19-4|' if bad_src & k4 else 'F-C19-3|' if bad_src & k3 else ''
                         res.fail(f"{pre}rerun-differs:{kind}", f"mode {mode}, case {e['name']}: after load_case + run_model {a} = {got.tolist()} "
                                  f"recorded {want.tolist()}")
                         break
-        if nontriv and (mode == 'perturbed' or idx != len(log) - 1):
+        if (nontriv or nontriv_new) and (mode == 'perturbed' or idx != len(log) - 1):
             res.nontrivial = True
         if kind in ('system', 'solver') and not full:
             res.classes.append('mid-iteration-case')
